@@ -81,16 +81,26 @@ fn match_path_segments(segments: &[&str], old_segments: &[PathSegment]) -> Optio
     segments_iter.next().is_none().then_some(optionals)
 }
 
+/// Remove `segment` from the start of `path` only if it is a whole path segment (ignoring leading slashes).
+fn strip_path_segment<'a>(path: &'a str, segment: &str) -> Option<&'a str> {
+    let rest = path.trim_start_matches('/').strip_prefix(segment)?;
+    (rest.is_empty() || rest.starts_with('/')).then_some(rest)
+}
+
+/// Remove the base path from the start of `path`, segment by segment (`"foo"`, `"/foo"`, `"foo/"` and `"/foo/"` are the same base).
+fn strip_base_path<'a>(path: &'a str, base_path: &str) -> Option<&'a str> {
+    base_path
+        .split('/')
+        .filter(|segment| !segment.is_empty())
+        .try_fold(path, strip_path_segment)
+}
+
 fn get_locale_from_path<L: Locale>(path: &str, base_path: &str) -> Option<L> {
-    let base_path = base_path.trim_start_matches('/');
-    let stripped_path = path
-        .trim_start_matches('/')
-        .strip_prefix(base_path)?
-        .trim_start_matches('/');
+    let stripped_path = strip_base_path(path, base_path)?;
     L::get_all()
         .iter()
         .copied()
-        .find(|l| stripped_path.starts_with(l.as_str()))
+        .find(|l| strip_path_segment(stripped_path, l.as_str()).is_some())
 }
 
 fn construct_path_segments<'b, 'p: 'b>(
@@ -174,11 +184,11 @@ fn get_new_path<L: Locale>(
         if new_locale != L::default() {
             path_builder.push(new_locale.as_str());
         }
-        if let Some(path_rest) = path_name.strip_prefix(base_path) {
+        if let Some(path_rest) = strip_base_path(path_name, base_path) {
             let path_rest = match locale {
                 None => path_rest,
                 Some(l) => {
-                    if let Some(path_rest) = path_rest.strip_prefix(l.as_str()) {
+                    if let Some(path_rest) = strip_path_segment(path_rest, l.as_str()) {
                         path_rest
                     } else {
                         path_rest // Should happen only if l == L::default()
